@@ -174,7 +174,7 @@ inductive Class where
   /-- … differing only by the case of extra keys (the repaired defect C02-extra-key-case, should it return) -/
   | extraKeyCase
   /-- … differing only by white space at the ends of values, or CR / LF turned into spaces on the upgrade path
-      (known limitation of the wire format) -/
+      (the repaired defect C02-value-not-carried, should it return: such identities must be refused, not forwarded) -/
   | valueNotCarried
 deriving DecidableEq, Repr
 
